@@ -230,7 +230,7 @@ def assigned(e):
 
 
 class Scan:
-    """walks a top-level function in the order libcst / symtable open scopes and
+    """walks a top-level function in the order symtable opens scopes and
     records: global name occurrences, keyword names with the scope they are in,
     the pre-order list of scopes, comprehension variables"""
 
@@ -268,13 +268,10 @@ class Scan:
         if k == "bin":
             self.visit(e[2], sc, cur); self.visit(e[3], sc, cur); return
         if k == "if":
-            # source order of  a if c else b  is a, c, b
-            n0 = len(self.scopes)
-            self.visit(e[2], sc, cur)
-            n1 = len(self.scopes)
+            # ifexp_order (function scopes in both a and c of  a if c else b): repaired in /repo.
+            # symtable opens the scopes of the test first (c, a, b); py312_comp_sibling relies on that order
             self.visit(e[1], sc, cur)
-            if n1 > n0 and len(self.scopes) > n1:
-                self.flags.add("ifexp_order")   # symtable visits the test first, libcst the body
+            self.visit(e[2], sc, cur)
             self.visit(e[3], sc, cur); return
         if k == "call":
             self.visit(e[1], sc, cur)
